@@ -89,3 +89,7 @@ pub struct RunGhost { pub ghost out: Seq<u8>, pub ghost served: nat, pub ghost c
 
 /// ghost transcript for the arbitrary-input contract of Handler::run (C10): the commands executed so far
 pub struct RunGhost10 { pub ghost cmds: Seq<command::SCmd>, pub ghost out: Seq<u8> }
+
+/// `"GET".into()`: bytes::Bytes from a &'static str holds the string's bytes
+pub assume_specification [<Bytes as From<&'static str>>::from] (s: &'static str) -> (r: Bytes)
+    ensures bv(r) == str_bytes(s);
